@@ -235,6 +235,13 @@ func checkC08(c *CaseC08, fl *Fails) {
 }
 
 func sweepC08(tier string, emit func(*CaseC08)) {
+	for i, n := range roundSizes {
+		if (tier == "quick" && i%3 != 1) || n > 2048 {
+			continue
+		}
+		emit(&CaseC08{Boxes: rowBoxes(n, 6, 4), HL: 0, VL: 1})
+		emit(&CaseC08{Boxes: rowBoxes(n, 6, 4), HL: 1, VL: 0})
+	}
 	maxL := int64(2)
 	for h := int64(0); h <= 2; h++ {
 		n := int64(1) << uint(h)
